@@ -1153,4 +1153,230 @@ theorem updateC_spec (n : Nat) (items : List (Path × PV)) (t : M) (hc : Coheren
                   | ok => exact hnode.trans (ih rest _ hnode.2.2)
 
 
+/-! ### auto_batch_size_ -/
+
+theorem takeEq_iff_prefix (s new : Shape) : takeEq s new = true ↔ new <+: s := by
+  unfold takeEq
+  rw [List.prefix_iff_eq_take]
+  constructor
+  · intro h; exact (beq_iff_eq.mp h).symm
+  · intro h; exact beq_iff_eq.mpr h.symm
+
+theorem autoPrefix_spec (bd : Option Nat) : ∀ (first acc pre : Shape) (others : List (Shape × Bool)),
+    acc <+: pre → (hasRoom bd acc = true → acc = pre) →
+    autoPrefix bd acc first others <+: pre ++ first ∧
+    ∀ sb ∈ others, sb.2 = false → autoPrefix bd acc first others <+: pre ++ sb.1 := by
+  intro first
+  induction first with
+  | nil =>
+    intro acc pre others h1 _
+    simp only [autoPrefix, List.append_nil]
+    exact ⟨h1, fun sb _ _ => h1.trans (List.prefix_append _ _)⟩
+  | cons d rest ih =>
+    intro acc pre others h1 h2
+    simp only [autoPrefix]
+    split
+    · rename_i hall
+      have hacc' : (if hasRoom bd acc then acc ++ [d] else acc) <+: pre ++ [d] ∧
+          (hasRoom bd (if hasRoom bd acc then acc ++ [d] else acc) = true →
+            (if hasRoom bd acc then acc ++ [d] else acc) = pre ++ [d]) := by
+        by_cases hr : hasRoom bd acc = true
+        · have := h2 hr; subst this; simp [hr]
+        · simp only [hr]
+          exact ⟨h1.trans (List.prefix_append _ _), fun h => absurd h hr⟩
+      have := ih _ (pre ++ [d]) (others.map fun sb => (sb.1.tail, sb.2)) hacc'.1 hacc'.2
+      refine ⟨by simpa using this.1, ?_⟩
+      intro sb hsb hf
+      have h3 := this.2 (sb.1.tail, sb.2) (List.mem_map.mpr ⟨sb, hsb, rfl⟩) hf
+      have hd : sb.1.head? = some d := by
+        have := List.all_eq_true.mp hall sb hsb
+        simpa [hf] using this
+      have : sb.1 = d :: sb.1.tail := by
+        cases hs : sb.1 with
+        | nil => rw [hs] at hd; simp at hd
+        | cons x xs => rw [hs] at hd; simp at hd; simp [hd]
+      rw [this]; simpa using h3
+    · exact ⟨h1.trans (List.prefix_append _ _), fun sb _ _ => h1.trans (List.prefix_append _ _)⟩
+
+
+/-- an entry lives on the container's device when one is set -/
+def DevOk (dv : Option Nat) (c : M) : Prop := ∀ d, dv = some d → c.onDev d = true
+
+theorem checkNewBs_of_prefix (new : Shape) (kids : Kids)
+    (h : ∀ k c, (k, c) ∈ kids → c.isEmpty = true ∨ takeEq c.shape new = true) : checkNewBs new kids = true := by
+  induction kids with
+  | nil => simp [checkNewBs]
+  | cons kv r ih =>
+    obtain ⟨k, c⟩ := kv
+    have ihr := ih (fun k c hm => h k c (List.mem_cons_of_mem _ hm))
+    have hc := h k c (by simp)
+    cases c with
+    | leaf s d =>
+      simp only [checkNewBs, Bool.and_eq_true]
+      rcases hc with hc | hc
+      · simp [M.isEmpty] at hc
+      · exact ⟨hc, ihr⟩
+    | node cbs cdv cn sub =>
+      simp only [checkNewBs, Bool.and_eq_true]
+      refine ⟨?_, ihr⟩
+      rcases hc with hc | hc
+      · simp only [M.isEmpty] at hc; simp [hc]
+      · simp only [M.shape] at hc
+        have hle : ¬ cbs.length < new.length := by
+          have := ((takeEq_iff_prefix _ _).mp hc).length_le; omega
+        simp [hle, hc]
+
+/-- `td.batch_size = new` on a node whose entries are coherent one by one and on its device — but need not fit the node's
+current batch size (the situation inside `_set_max_batch_size`) — when the entries allow `new` -/
+theorem setBatchM_weak (new bs : Shape) (dv : Option Nat) (ns : Option DimNames) (kids : Kids)
+    (hd : ∀ k c, (k, c) ∈ kids → DevOk dv c) (hc : ∀ k c, (k, c) ∈ kids → Coherent c)
+    (hchk : checkNewBs new kids = true) :
+    let r := setBatchM new (.node bs dv ns kids)
+    (r.2 = .ok ∨ r.2 = .err .value) ∧
+    (r.2 = .ok → Coherent r.1 ∧ r.1.shape = new ∧ ∀ d, r.1.onDev d = (dv == some d)) := by
+  intro r
+  have hr : r = finishResize new bs dv ns (growKids new kids) := by simp [r, setBatchM, hchk]
+  have hg := growKids_spec new kids [] dv (fun k c hm => ⟨takeEq_nil _, hd k c hm⟩) hc hchk
+  cases hgk : growKids new kids with
+  | mk kids' o =>
+    rw [hgk] at hg hr
+    cases o with
+    | err e =>
+      have he : e = .value := by rcases hg.1 with h | h <;> simp at h; exact h
+      subst he
+      have : r = (.node bs dv ns kids', .err .value) := by rw [hr]; simp [finishResize]
+      rw [this]; simp
+    | ok =>
+      have hG := hg.2 rfl
+      have hspec := finishResize_spec new bs dv ns kids' hG.1 hG.2
+      simp only at hspec
+      rw [← hr] at hspec
+      obtain ⟨ho, hco, hsh, hdv⟩ := hspec
+      exact ⟨ho, fun _ => ⟨hco, hsh, hdv⟩⟩
+
+theorem autoFinish_spec (bd : Option Nat) (bs : Shape) (dv : Option Nat) (ns : Option DimNames) (kids : Kids)
+    (hn : ∀ l, ns = some l → l.length = bs.length)
+    (hd : ∀ k c, (k, c) ∈ kids → DevOk dv c) (hc : ∀ k c, (k, c) ∈ kids → Coherent c) :
+    let r := autoFinish bd (.node bs dv ns kids)
+    (r.2 = .ok ∨ r.2 = .err .value) ∧
+    (r.2 = .ok → Coherent r.1 ∧ ∀ d, r.1.onDev d = (dv == some d)) := by
+  intro r
+  cases kids with
+  | nil =>
+    have hsame : Coherent (.node bs dv ns []) := Coherent.node _ _ _ _ hn (by simp) (by simp)
+    cases bd with
+    | none => simp [r, autoFinish, hsame, M.onDev]
+    | some n =>
+      by_cases hq : n = 0 ∨ bs.take n = bs
+      · simp [r, autoFinish, hq, hsame, M.onDev]
+      · have hr : r = setBatchM (bs.take n) (.node bs dv ns []) := by simp [r, autoFinish, hq]
+        have := setBatchM_weak (bs.take n) bs dv ns [] (by simp) (by simp) (by simp [checkNewBs])
+        simp only at this
+        rw [← hr] at this
+        exact ⟨this.1, fun h => ⟨(this.2 h).1, (this.2 h).2.2⟩⟩
+  | cons kv others =>
+    obtain ⟨k, first⟩ := kv
+    have hp := autoPrefix_spec bd first.shape [] [] (others.map fun kv => (kv.2.shape, kv.2.isEmpty))
+      (List.prefix_refl _) (fun _ => rfl)
+    simp only [List.nil_append] at hp
+    have hchk : checkNewBs (autoPrefix bd [] first.shape (others.map fun kv => (kv.2.shape, kv.2.isEmpty)))
+        ((k, first) :: others) = true := by
+      apply checkNewBs_of_prefix
+      intro k' c hm
+      simp only [List.mem_cons, Prod.mk.injEq] at hm
+      rcases hm with ⟨_, rfl⟩ | hm
+      · exact Or.inr ((takeEq_iff_prefix _ _).mpr hp.1)
+      · by_cases he : c.isEmpty = true
+        · exact Or.inl he
+        · refine Or.inr ((takeEq_iff_prefix _ _).mpr ?_)
+          exact hp.2 (c.shape, c.isEmpty) (List.mem_map.mpr ⟨(k', c), hm, rfl⟩) (by simpa using he)
+    have := setBatchM_weak _ bs dv ns ((k, first) :: others) hd hc hchk
+    simp only at this
+    have hr : r = setBatchM (autoPrefix bd [] first.shape (others.map fun kv => (kv.2.shape, kv.2.isEmpty)))
+        (.node bs dv ns ((k, first) :: others)) := by simp [r, autoFinish]
+    rw [← hr] at this
+    exact ⟨this.1, fun h => ⟨(this.2 h).1, (this.2 h).2.2⟩⟩
+
+
+theorem devOk_of_fits {bs dv c} (h : fits bs dv c) : DevOk dv c := h.2
+
+theorem autoKids_spec (bd : Option Nat) (kids : Kids) (dv : Option Nat)
+    (hd : ∀ k c, (k, c) ∈ kids → DevOk dv c) (hc : ∀ k c, (k, c) ∈ kids → Coherent c) :
+    ((autoKids bd kids).2 = .ok ∨ (autoKids bd kids).2 = .err .value) ∧
+    ((autoKids bd kids).2 = .ok → ∀ k c, (k, c) ∈ (autoKids bd kids).1 → DevOk dv c ∧ Coherent c) := by
+  fun_induction autoKids bd kids generalizing dv
+  · exact ⟨Or.inl rfl, fun _ => by simp⟩
+  · rename_i k s d r r' o hx ih
+    have ih' := ih dv (fun k c h => hd k c (List.mem_cons_of_mem _ h)) (fun k c h => hc k c (List.mem_cons_of_mem _ h))
+    rw [hx] at ih'
+    refine ⟨ih'.1, fun ho k' c' hm => ?_⟩
+    simp only [List.mem_cons, Prod.mk.injEq] at hm
+    rcases hm with ⟨_, rfl⟩ | hm
+    · exact ⟨hd k _ (by simp), Coherent.leaf _ _⟩
+    · exact ih'.2 ho k' c' hm
+  · -- a nested tensordict below raises
+    rename_i k cbs cdv cnames sub r sub' e hx ih
+    have hcc := hc k (M.node cbs cdv cnames sub) (by simp)
+    have ih' := ih cdv (fun k c h => (hcc.kid_fits k c h).2) hcc.kid_coh
+    rw [hx] at ih'
+    rcases ih'.1 with h | h
+    · simp at h
+    · simp at h; subst h; exact ⟨Or.inr rfl, by simp⟩
+  · -- its own batch size assignment raises
+    rename_i k cbs cdv cnames sub r sub' hx c' e hf ih
+    have hcc := hc k (M.node cbs cdv cnames sub) (by simp)
+    have ih' := ih cdv (fun k c h => (hcc.kid_fits k c h).2) hcc.kid_coh
+    rw [hx] at ih'
+    have hsub := ih'.2 rfl
+    have hfin := autoFinish_spec bd cbs cdv cnames sub' hcc.names_len (fun k c h => (hsub k c h).1) (fun k c h => (hsub k c h).2)
+    simp only at hfin
+    rw [hf] at hfin
+    rcases hfin.1 with h | h
+    · simp at h
+    · simp at h; subst h; exact ⟨Or.inr rfl, by simp⟩
+  · rename_i k cbs cdv cnames sub r sub' hx c' hf r' o hxr ih2 ih1
+    have hcc := hc k (M.node cbs cdv cnames sub) (by simp)
+    have ihs := ih2 cdv (fun k c h => (hcc.kid_fits k c h).2) hcc.kid_coh
+    rw [hx] at ihs
+    have hsub := ihs.2 rfl
+    have hfin := autoFinish_spec bd cbs cdv cnames sub' hcc.names_len (fun k c h => (hsub k c h).1) (fun k c h => (hsub k c h).2)
+    simp only at hfin
+    rw [hf] at hfin
+    have ihr := ih1 dv (fun k c h => hd k c (List.mem_cons_of_mem _ h)) (fun k c h => hc k c (List.mem_cons_of_mem _ h))
+    rw [hxr] at ihr
+    refine ⟨ihr.1, fun ho k' c'' hm => ?_⟩
+    simp only [List.mem_cons, Prod.mk.injEq] at hm
+    rcases hm with ⟨_, rfl⟩ | hm
+    · obtain ⟨hco, hdev⟩ := hfin.2 rfl
+      refine ⟨fun d hdv => ?_, hco⟩
+      have := hd k (M.node cbs cdv cnames sub) (by simp) d hdv
+      rw [hdev]; simpa [M.onDev] using this
+    · exact ihr.2 ho k' c'' hm
+
+/-- `auto_batch_size_(batch_dims)` on a coherent tensordict: it answers ok or ValueError (a dim-name conflict while the
+names follow a new batch size) — the batch size it computes is never refused as incompatible with an entry — and when
+it returns normally the whole tree is coherent again. -/
+theorem autoBatchM_spec (bd : Option Nat) (bs : Shape) (dv : Option Nat) (ns : Option DimNames) (kids : Kids)
+    (hc : Coherent (.node bs dv ns kids)) :
+    let r := autoBatchM bd (.node bs dv ns kids)
+    (r.2 = .ok ∨ r.2 = .err .value) ∧ (r.2 = .ok → Coherent r.1 ∧ ∀ d, r.1.onDev d = (dv == some d)) := by
+  intro r
+  have hk := autoKids_spec bd kids dv (fun k c h => (hc.kid_fits k c h).2) hc.kid_coh
+  cases hak : autoKids bd kids with
+  | mk kids' o =>
+    rw [hak] at hk
+    cases o with
+    | err e =>
+      have : r = (.node bs dv ns kids', .err e) := by simp [r, autoBatchM, hak]
+      rw [this]
+      rcases hk.1 with h | h
+      · simp at h
+      · simp at h; subst h; simp
+    | ok =>
+      have hsub := hk.2 rfl
+      have hfin := autoFinish_spec bd bs dv ns kids' hc.names_len (fun k c h => (hsub k c h).1) (fun k c h => (hsub k c h).2)
+      have : r = autoFinish bd (.node bs dv ns kids') := by simp [r, autoBatchM, hak]
+      rw [this]; exact hfin
+
+
 end TdVerif.C01
